@@ -1,6 +1,7 @@
 import Driver.Json
 import Driver.Tree
 import Driver.History
+import Driver.Io
 /-!
 `kpdriver`: reads one JSON case per line on stdin, runs the Lean model (and, where it differs, the reference
 specification) on the case's inputs and prints one JSON line per case:
@@ -13,6 +14,8 @@ def dispatch (op : String) (j : Json) : R Json :=
   match op with
   | "tree" => opTree j
   | "history" => opHistory j
+  | "ioread" => opIoRead j
+  | "iowrite" => opIoWrite j
   | _ => throw s!"unknown op {op}"
 
 def handleLine (line : String) : String :=
